@@ -199,8 +199,8 @@ def execute(scn):
                 elif kind == "add":
                     val.name = name
                     got = obj.add(val)
-                    if not elaborated and got is not val:
-                        fail("add-returns", f"op {k}: add() did not return its argument")
+                    if not elaborated and got is val:
+                        probe("add_returned_its_argument")
                 else:
                     got = obj.add(val, name=name)
                 if expect_reject:
@@ -250,13 +250,25 @@ def execute(scn):
                 type("Sub", (base,), {})
                 fail("subclass-accepted", f"op {k}: sub-classing was accepted")
             elif kind == "add_anon":
+                # the property does not say what add() of an unnamed object does: refused on the
+                # pinned tree; if a tree accepts it the model cannot name it and the history ends
                 obj.add(make_value(h, env, op[1], op[2]))
-                fail("anon-accepted", f"op {k}: add() of an unnamed object was accepted")
+                probe("anon_add_accepted")
+                break
             elif kind == "add_conflict":
+                # likewise for add(val named x, name=y): refused on the pinned tree; a tree that
+                # accepts it must store the object under exactly one of the two names
                 val = make_value(h, env, op[3], op[4])
                 val.name = op[1]
                 obj.add(val, name=op[2])
-                fail("conflict-accepted", f"op {k}: add() with two names was accepted")
+                probe("conflicting_add_accepted")
+                if elaborated:
+                    fail("accepted-after-elaboration", f"op {k} {op}: addition after elaborate was accepted")
+                    break
+                if val.name not in (op[1], op[2]):
+                    fail("views", f"op {k}: add() with names {op[1]!r} / {op[2]!r} stored the object as {val.name!r}")
+                    break
+                model[val.name] = (op[3], val)
         except Exception as e:  # noqa
             if kind in ("set", "add", "add_named", "get", "elaborate", "reset", "readd") and not expect_reject:
                 if kind == "elaborate":
